@@ -98,6 +98,10 @@ Proof.
   intros [k a] Hin. cbn. f_equal. exact (H (k, a) Hin).
 Qed.
 
+Lemma al_map_map {A} (g h : A -> A) (l : list (N * A)) :
+  al_map g (al_map h l) = al_map (fun a => g (h a)) l.
+Proof. unfold al_map. rewrite map_map. apply map_ext. intros [k a]. reflexivity. Qed.
+
 Lemma Forall_al_upd {A} (Q : A -> Prop) k f dflt (l : list (N * A)) :
   (forall a, Q a -> Q (f a)) -> Q dflt ->
   Forall (fun p => Q (snd p)) l -> Forall (fun p => Q (snd p)) (al_upd k f dflt l).
@@ -119,7 +123,7 @@ Qed.
 Definition rs_q (c w : N) (rs : rrsets) : Prop := Forall (fun p => cq c w (snd p)) rs.
 
 Definition rs_eqv (a b : rrsets) : Prop :=
-  (forall t, cell t a = cell t b) /\ (forall nm v, walk_rrsets nm a v = walk_rrsets nm b v).
+  (forall t, cell t a = cell t b) /\ (forall (nm : list N) v, walk_rrsets nm a v = walk_rrsets nm b v).
 
 Lemma rs_eqv_refl a : rs_eqv a a.
 Proof. split; reflexivity. Qed.
@@ -141,12 +145,12 @@ Proof.
   destruct (k =? t); [exact Hd|exact IH].
 Qed.
 
-Lemma walk_rrsets_cons nm k d (tl : rrsets) v :
+Lemma walk_rrsets_cons {A} (nm : A) k d (tl : rrsets) v :
   walk_rrsets nm ((k, d) :: tl) v =
   (match v_get d v with Some rr => [(nm, k, rr)] | None => [] end) ++ walk_rrsets nm tl v.
 Proof. reflexivity. Qed.
 
-Lemma walk_upd_base c w t f (rs : rrsets) nm v :
+Lemma walk_upd_base {A} c w t f (rs : rrsets) (nm : A) v :
   c < w -> wl w f -> rs_q c w rs ->
   walk_rrsets nm (rs_rollback (al_upd t f [] rs) w) v = walk_rrsets nm (rs_rollback rs w) v.
 Proof.
@@ -210,7 +214,7 @@ Proof.
   intros Hr. unfold rs_get, rs_rollback, rs_all. rewrite cell_map by reflexivity. now apply get_base.
 Qed.
 
-Lemma walk_rrsets_base w nm rs r :
+Lemma walk_rrsets_base {A} w (nm : A) rs r :
   ver_le w r = false -> walk_rrsets nm (rs_rollback rs w) r = walk_rrsets nm rs r.
 Proof.
   intros Hr. unfold rs_rollback, rs_all. induction rs as [|[k d] tl IH]; [reflexivity|].
@@ -223,48 +227,181 @@ Proof.
   rewrite Forall_forall in H. exact (rollback_id c w _ Hc (H _ Hin)).
 Qed.
 
-(* ---------------------------------------------------------------- ZoneNode *)
+(* ---------------------------------------------------------------- more on NodeRrsets *)
 
-Definition n_q (c w : N) (n : znode) : Prop := rs_q c w (n_rrsets n) /\ cq c w (n_special n).
+Lemma rs_get_eqv a b t v : rs_eqv a b -> rs_get a t v = rs_get b t v.
+Proof. intros [H _]. unfold rs_get. now rewrite H. Qed.
 
-Definition n_eqv (a b : znode) : Prop := rs_eqv (n_rrsets a) (n_rrsets b) /\ n_special a = n_special b.
+Lemma is_empty_walk rs v :
+  rs_is_empty rs v = match walk_rrsets (@nil N) rs v with [] => true | _ => false end.
+Proof.
+  induction rs as [|[k d] tl IH]; [reflexivity|].
+  rewrite walk_rrsets_cons. cbn [rs_is_empty forallb snd]. destruct (v_get d v); [reflexivity|exact IH].
+Qed.
 
-Lemma n_eqv_refl a : n_eqv a a.
-Proof. split; [apply rs_eqv_refl|reflexivity]. Qed.
-Lemma n_eqv_trans a b c : n_eqv a b -> n_eqv b c -> n_eqv a c.
-Proof. intros [H1 H2] [H3 H4]. split; [eapply rs_eqv_trans; eauto|congruence]. Qed.
-Lemma n_eqv_sym a b : n_eqv a b -> n_eqv b a.
-Proof. intros [H1 H2]. split; [now apply rs_eqv_sym|congruence]. Qed.
+Lemma is_empty_eqv a b v : rs_eqv a b -> rs_is_empty a v = rs_is_empty b v.
+Proof. intros [_ H]. now rewrite !is_empty_walk, H. Qed.
 
-(* F acts on the node's cells through w-local functions only *)
-Definition nl (w : N) (F : znode -> znode) : Prop :=
-  forall c n, c < w -> n_q c w n -> n_q c w (F n) /\ n_eqv (n_rollback (F n) w) (n_rollback n w).
+Lemma is_empty_base w rs r : ver_le w r = false -> rs_is_empty (rs_rollback rs w) r = rs_is_empty rs r.
+Proof. intros Hr. now rewrite !is_empty_walk, (walk_rrsets_base w (@nil N) rs r Hr). Qed.
 
-Lemma n_rollback_eq n w : n_rollback n w = mknode (rs_rollback (n_rrsets n) w) (v_rollback (n_special n) w).
+Lemma rrsets_answer_eqv a b v t soa : rs_eqv a b -> rrsets_answer a v t soa = rrsets_answer b v t soa.
+Proof. intros H. unfold rrsets_answer. now rewrite (is_empty_eqv _ _ v H), (rs_get_eqv _ _ t v H). Qed.
+
+Lemma rrsets_answer_base w rs r t soa :
+  ver_le w r = false -> rrsets_answer (rs_rollback rs w) r t soa = rrsets_answer rs r t soa.
+Proof. intros Hr. unfold rrsets_answer. now rewrite (is_empty_base w _ r Hr), (rs_get_base w _ t r Hr). Qed.
+
+(* ---------------------------------------------------------------- ZoneNode: the tree *)
+
+Lemma znode_ind' (P : znode -> Prop) :
+  (forall rs sp ch, Forall (fun p => P (snd p)) ch -> P (mknode rs sp ch)) -> forall n, P n.
+Proof.
+  intros H. fix IH 1. intros [rs sp ch]. apply H.
+  induction ch as [|[k c] tl IHl]; constructor; [apply IH|exact IHl].
+Qed.
+
+(* a property of every cell of a subtree *)
+Section AllCells.
+Variable P : forall T, list (entry T) -> Prop.
+Inductive n_all : znode -> Prop :=
+| n_all_intro rs sp ch :
+    Forall (fun p => P _ (snd p)) rs -> P _ sp -> Forall (fun p => n_all (snd p)) ch ->
+    n_all (mknode rs sp ch).
+Definition ns_all (ns : list (N * znode)) : Prop := Forall (fun p => n_all (snd p)) ns.
+End AllCells.
+
+Lemma n_all_impl (P Q : forall T, list (entry T) -> Prop) :
+  (forall T d, P T d -> Q T d) -> forall n, n_all P n -> n_all Q n.
+Proof.
+  intros HPQ. induction n as [rs sp ch IH] using znode_ind'. intros H. inversion H as [? ? ? H1 H2 H3]; subst.
+  constructor.
+  - eapply Forall_impl; [|exact H1]. intros p. apply HPQ.
+  - now apply HPQ.
+  - rewrite Forall_forall in *. intros p Hin. apply (IH p Hin). exact (H3 p Hin).
+Qed.
+
+Lemma ns_all_impl (P Q : forall T, list (entry T) -> Prop) ns :
+  (forall T d, P T d -> Q T d) -> ns_all P ns -> ns_all Q ns.
+Proof. intros HPQ H. eapply Forall_impl; [|exact H]. intros p. now apply n_all_impl. Qed.
+
+Definition n_q (c w : N) : znode -> Prop := n_all (fun T d => cq c w d).
+Definition ns_q (c w : N) : list (N * znode) -> Prop := ns_all (fun T d => cq c w d).
+
+Lemma n_q_inv c w rs sp ch :
+  n_q c w (mknode rs sp ch) -> rs_q c w rs /\ cq c w sp /\ ns_q c w ch.
+Proof. intros H. inversion H; subst. repeat split; assumption. Qed.
+Lemma n_q_intro c w rs sp ch : rs_q c w rs -> cq c w sp -> ns_q c w ch -> n_q c w (mknode rs sp ch).
+Proof. intros. constructor; assumption. Qed.
+
+Lemma n_q_empty c w : n_q c w empty_node.
+Proof. constructor; constructor. Qed.
+
+Lemma n_rollback_eq rs sp ch w :
+  n_rollback (mknode rs sp ch) w =
+  mknode (rs_rollback rs w) (v_rollback sp w) (al_map (fun n => n_rollback n w) ch).
+Proof. reflexivity. Qed.
+Lemma n_remove_all_eq rs sp ch w :
+  n_remove_all (mknode rs sp ch) w =
+  mknode (rs_remove_all rs w) (v_remove sp w) (al_map (fun n => n_remove_all n w) ch).
 Proof. reflexivity. Qed.
 
+(* ---- "the same up to empty cells and blank nodes" *)
+
+(* a node all of whose cells are empty, with blank nodes below: what rollback
+   leaves of a subtree that the rolled-back version created *)
+Inductive blank : znode -> Prop :=
+| blank_intro rs ch : rs_eqv rs [] -> Forall (fun p => blank (snd p)) ch -> blank (mknode rs [] ch).
+
+Inductive n_le : znode -> znode -> Prop :=
+| n_le_intro rs sp ch rs' ch' : rs_eqv rs rs' -> ns_le ch ch' -> n_le (mknode rs sp ch) (mknode rs' sp ch')
+with ns_le : list (N * znode) -> list (N * znode) -> Prop :=
+| ns_le_nil extra : Forall (fun p => blank (snd p)) extra -> ns_le [] extra
+| ns_le_cons k n n' a b : n_le n n' -> ns_le a b -> ns_le ((k, n) :: a) ((k, n') :: b).
+
+Scheme n_le_min := Minimality for n_le Sort Prop
+  with ns_le_min := Minimality for ns_le Sort Prop.
+Combined Scheme le_mut from n_le_min, ns_le_min.
+
+Lemma ns_le_refl_of a : Forall (fun p => n_le (snd p) (snd p)) a -> ns_le a a.
+Proof. intros H. induction H as [|[k n] tl Hn _ IH]; constructor; [constructor|exact Hn|exact IH]. Qed.
+
+Lemma n_le_refl n : n_le n n.
+Proof.
+  induction n as [rs sp ch IH] using znode_ind'. constructor; [apply rs_eqv_refl|now apply ns_le_refl_of].
+Qed.
+Lemma ns_le_refl a : ns_le a a.
+Proof. apply ns_le_refl_of. apply Forall_forall. intros; apply n_le_refl. Qed.
+
+Lemma blank_le_mut :
+  (forall n n', n_le n n' -> blank n -> blank n') /\
+  (forall a b, ns_le a b -> Forall (fun p => blank (snd p)) a -> Forall (fun p => blank (snd p)) b).
+Proof.
+  apply le_mut.
+  - intros rs sp ch rs' ch' Hr _ IH Hb. inversion Hb as [? ? Hr0 Hch]; subst.
+    constructor; [eapply rs_eqv_trans; [apply rs_eqv_sym; exact Hr|exact Hr0]|now apply IH].
+  - intros extra He _. exact He.
+  - intros k n n' a b _ IHn _ IHs Hb. inversion Hb as [|? ? Hn Htl]; subst. cbn [snd] in Hn.
+    constructor; [cbn [snd]; now apply IHn|now apply IHs].
+Qed.
+
+Lemma le_trans_mut :
+  (forall a b, n_le a b -> forall c, n_le b c -> n_le a c) /\
+  (forall a b, ns_le a b -> forall c, ns_le b c -> ns_le a c).
+Proof.
+  apply le_mut.
+  - intros rs sp ch rs' ch' Hr _ IH c Hc. inversion Hc as [? ? ? rs'' ch'' Hr' Hs']; subst.
+    constructor; [eapply rs_eqv_trans; eauto|now apply IH].
+  - intros extra He c Hc. constructor. exact (proj2 blank_le_mut _ _ Hc He).
+  - intros k n n' a b _ IHn _ IHs c Hc. inversion Hc as [|? ? n'' ? c' Hn' Hc']; subst.
+    constructor; [now apply IHn|now apply IHs].
+Qed.
+Definition n_le_trans := proj1 le_trans_mut.
+Definition ns_le_trans := proj2 le_trans_mut.
+
+Lemma blank_of_le_empty m : n_le empty_node m -> blank m.
+Proof.
+  intros H. inversion H as [? ? ? rs' ch' Hr Hs]; subst. inversion Hs; subst.
+  constructor; [now apply rs_eqv_sym|assumption].
+Qed.
+
+Lemma ns_le_map (g g' : znode -> znode) ch :
+  Forall (fun p => n_le (g (snd p)) (g' (snd p))) ch -> ns_le (al_map g ch) (al_map g' ch).
+Proof.
+  intros H. induction H as [|[k n] tl Hn _ IH]; cbn [al_map map fst snd]; constructor; [constructor|exact Hn|exact IH].
+Qed.
+
+(* ---- w-local node functions *)
+
+(* F changes the subtree only by w-local cell functions and by adding nodes that
+   the rollback of w leaves blank *)
+Definition nl (w : N) (F : znode -> znode) : Prop :=
+  forall c n, c < w -> n_q c w n -> n_q c w (F n) /\ n_le (n_rollback n w) (n_rollback (F n) w).
+
 Lemma nl_id w : nl w (fun n => n).
-Proof. intros c n Hc H. split; [exact H|apply n_eqv_refl]. Qed.
+Proof. intros c n Hc H. split; [exact H|apply n_le_refl]. Qed.
 
 Lemma nl_comp w F G : nl w F -> nl w G -> nl w (fun n => G (F n)).
 Proof.
   intros HF HG c n Hc H. destruct (HF c n Hc H) as [H1 H2]. destruct (HG c (F n) Hc H1) as [H3 H4].
-  split; [exact H3|eapply n_eqv_trans; eauto].
+  split; [exact H3|eapply n_le_trans; eauto].
 Qed.
 
 Lemma nl_update_special w s : nl w (fun n => n_update_special n w s).
 Proof.
-  intros c n Hc [Hr Hs]. unfold n_update_special. split.
-  - split; cbn [n_rrsets n_special]; [exact Hr|].
+  intros c [rs sp ch] Hc H. destruct (n_q_inv _ _ _ _ _ H) as [Hr [Hs Hch]].
+  unfold n_update_special, set_special. cbn [n_rrsets n_special n_children]. split.
+  - apply n_q_intro; [exact Hr| |exact Hch].
     apply (wl_cq c w (fun d => v_update d w s)); auto using wl_update.
-  - rewrite !n_rollback_eq. cbn [n_rrsets n_special]. split; cbn [n_rrsets n_special]; [apply rs_eqv_refl|].
-    apply wl_update. now apply (cq_nov c).
+  - rewrite !n_rollback_eq. rewrite (wl_update w s sp (cq_nov c w sp Hc Hs)).
+    constructor; [apply rs_eqv_refl|apply ns_le_refl].
 Qed.
 
 Lemma nl_check_nx w : nl w (fun n => check_nx n w).
 Proof.
   intros c n Hc H. unfold check_nx. destruct nx_marker_follows_emptiness; [|now apply nl_id].
-  destruct (n_with_special n w) as [[id|]|].
+  destruct (n_with_special n w) as [[ns ds glue|id|]|].
+  - now apply nl_id.
   - now apply nl_id.
   - destruct (negb (rs_is_empty (n_rrsets n) w)); [now apply nl_update_special|now apply nl_id].
   - destruct (rs_is_empty (n_rrsets n) w); [now apply nl_update_special|now apply nl_id].
@@ -272,17 +409,18 @@ Qed.
 
 Lemma nl_set_rrsets w (G : rrsets -> rrsets) :
   (forall c rs, c < w -> rs_q c w rs -> rs_q c w (G rs) /\ rs_eqv (rs_rollback (G rs) w) (rs_rollback rs w)) ->
-  nl w (fun n => mknode (G (n_rrsets n)) (n_special n)).
+  nl w (fun n => set_rrsets n (G (n_rrsets n))).
 Proof.
-  intros HG c n Hc [Hr Hs]. destruct (HG c _ Hc Hr) as [H1 H2]. split.
-  - split; assumption.
-  - rewrite !n_rollback_eq. split; cbn [n_rrsets n_special]; [exact H2|reflexivity].
+  intros HG c [rs sp ch] Hc H. destruct (n_q_inv _ _ _ _ _ H) as [Hr [Hs Hch]].
+  destruct (HG c _ Hc Hr) as [H1 H2]. unfold set_rrsets. cbn [n_rrsets n_special n_children]. split.
+  - now apply n_q_intro.
+  - rewrite !n_rollback_eq. constructor; [now apply rs_eqv_sym|apply ns_le_refl].
 Qed.
 
 Lemma nl_update_rrset w t rr : nl w (fun n => n_update_rrset n t rr w).
 Proof.
   unfold n_update_rrset.
-  apply (nl_comp w (fun n => mknode (rs_update (n_rrsets n) t rr w) (n_special n)) (fun n => check_nx n w));
+  apply (nl_comp w (fun n => set_rrsets n (rs_update (n_rrsets n) t rr w)) (fun n => check_nx n w));
     [|apply nl_check_nx].
   apply (nl_set_rrsets w (fun rs => rs_update rs t rr w)). intros c rs Hc H. now apply rs_update_wl.
 Qed.
@@ -290,7 +428,7 @@ Qed.
 Lemma nl_remove_rrset w t : nl w (fun n => n_remove_rrset n t w).
 Proof.
   unfold n_remove_rrset.
-  apply (nl_comp w (fun n => mknode (rs_remove_rtype (n_rrsets n) t w) (n_special n)) (fun n => check_nx n w));
+  apply (nl_comp w (fun n => set_rrsets n (rs_remove_rtype (n_rrsets n) t w)) (fun n => check_nx n w));
     [|apply nl_check_nx].
   apply (nl_set_rrsets w (fun rs => rs_remove_rtype rs t w)). intros c rs Hc H. now apply rs_remove_wl.
 Qed.
@@ -304,50 +442,87 @@ Qed.
 
 Lemma nl_make_cname w id : nl w (fun n => n_make_cname n id w).
 Proof. unfold n_make_cname. apply nl_update_special. Qed.
+Lemma nl_make_cut w ns ds glue : nl w (fun n => n_make_cut n ns ds glue w).
+Proof. unfold n_make_cut. apply nl_update_special. Qed.
 
+(* remove_all recurses into every child *)
 Lemma nl_remove_all w : nl w (fun n => n_remove_all n w).
 Proof.
-  intros c n Hc [Hr Hs]. unfold n_remove_all. cbv [node_remove_all_rrsets node_remove_all_special]. split.
-  - split; cbn [n_rrsets n_special].
+  intros c n Hc. induction n as [rs sp ch IH] using znode_ind'. intros H.
+  destruct (n_q_inv _ _ _ _ _ H) as [Hr [Hs Hch]].
+  assert (Hkids : Forall (fun p => n_q c w (n_remove_all (snd p) w) /\
+                                   n_le (n_rollback (snd p) w) (n_rollback (n_remove_all (snd p) w) w)) ch).
+  { unfold ns_q, ns_all in Hch. rewrite Forall_forall in *. intros p Hin. apply (IH p Hin). exact (Hch p Hin). }
+  rewrite n_remove_all_eq. split.
+  - apply n_q_intro.
     + apply rs_all_q; auto using wl_remove.
     + apply (wl_cq c w (fun d => v_remove d w)); auto using wl_remove.
-  - rewrite !n_rollback_eq. split; cbn [n_rrsets n_special].
-    + unfold rs_remove_all. rewrite (rs_all_base c); auto using wl_remove. apply rs_eqv_refl.
-    + apply wl_remove. now apply (cq_nov c).
+    + unfold ns_q, ns_all, al_map. rewrite Forall_map. eapply Forall_impl; [|exact Hkids]. intros p [H1 _]. exact H1.
+  - rewrite !n_rollback_eq. unfold rs_remove_all. rewrite (rs_all_base c) by auto using wl_remove.
+    rewrite (wl_remove w sp (cq_nov c w sp Hc Hs)).
+    constructor; [apply rs_eqv_refl|].
+    rewrite al_map_map.
+    apply (ns_le_map (fun n => n_rollback n w) (fun n => n_rollback (n_remove_all n w) w)).
+    eapply Forall_impl; [|exact Hkids]. intros p [_ H2]. exact H2.
+Qed.
+
+(* ---- association lists of nodes *)
+
+Lemma al_upd_le c w l G fresh ns :
+  c < w -> nl w G -> n_q c w (G fresh) -> blank (n_rollback (G fresh) w) -> ns_q c w ns ->
+  ns_q c w (al_upd l G fresh ns) /\
+  ns_le (al_map (fun n => n_rollback n w) ns) (al_map (fun n => n_rollback n w) (al_upd l G fresh ns)).
+Proof.
+  intros Hc HG Hq Hb H. induction H as [|[k n] tl Hn Htl IH]; cbn [al_upd].
+  - split; [constructor; [exact Hq|constructor]|].
+    cbn [al_map map fst snd]. constructor. constructor; [exact Hb|constructor].
+  - destruct (k =? l).
+    + destruct (HG c n Hc Hn) as [H1 H2]. split.
+      * constructor; assumption.
+      * cbn [al_map map fst snd]. constructor; [exact H2|apply ns_le_refl].
+    + destruct IH as [H1 H2]. split.
+      * constructor; assumption.
+      * cbn [al_map map fst snd]. constructor; [apply n_le_refl|exact H2].
+Qed.
+
+Lemma fresh_ok c w G :
+  c < w -> nl w G -> n_q c w (G (fresh_node w)) /\ blank (n_rollback (G (fresh_node w)) w).
+Proof.
+  intros Hc HG. unfold fresh_node. cbv [update_child_creates_node].
+  destruct (nl_comp w _ _ (nl_make_regular w) HG c empty_node Hc (n_q_empty c w)) as [H1 H2].
+  split; [exact H1|]. apply blank_of_le_empty. exact H2.
+Qed.
+
+Lemma nl_set_children w (X : list (N * znode) -> list (N * znode)) :
+  (forall c ns, c < w -> ns_q c w ns ->
+     ns_q c w (X ns) /\ ns_le (al_map (fun n => n_rollback n w) ns) (al_map (fun n => n_rollback n w) (X ns))) ->
+  nl w (fun n => set_children n (X (n_children n))).
+Proof.
+  intros HX c [rs sp ch] Hc H. destruct (n_q_inv _ _ _ _ _ H) as [Hr [Hs Hch]].
+  destruct (HX c ch Hc Hch) as [H1 H2]. unfold set_children. cbn [n_rrsets n_special n_children]. split.
+  - now apply n_q_intro.
+  - rewrite !n_rollback_eq. constructor; [apply rs_eqv_refl|exact H2].
+Qed.
+
+(* update_child along a path, creating what is missing, then f on the last node *)
+Lemma path_do_le w f :
+  nl w f -> forall p c ns, c < w -> ns_q c w ns ->
+  ns_q c w (path_do ns p (fresh_node w) f) /\
+  ns_le (al_map (fun n => n_rollback n w) ns) (al_map (fun n => n_rollback n w) (path_do ns p (fresh_node w) f)).
+Proof.
+  intros Hf. induction p as [|l rest IH]; intros c ns Hc H; cbn [path_do].
+  - split; [exact H|apply ns_le_refl].
+  - destruct rest as [|l' rest'].
+    + destruct (fresh_ok c w f Hc Hf) as [Hq Hb]. now apply al_upd_le.
+    + set (G := fun n => set_children n (path_do (n_children n) (l' :: rest') (fresh_node w) f)).
+      assert (HG : nl w G) by (apply (nl_set_children w (fun ch => path_do ch (l' :: rest') (fresh_node w) f)); intros; now apply IH).
+      destruct (fresh_ok c w G Hc HG) as [Hq Hb]. now apply (al_upd_le c w l G).
 Qed.
 
 (* ---------------------------------------------------------------- zone *)
 
-Definition ns_q (c w : N) (ns : list (N * znode)) : Prop := Forall (fun p => n_q c w (snd p)) ns.
 Definition z_q (c w : N) (s : zstate) : Prop := rs_q c w (z_apex s) /\ ns_q c w (z_nodes s).
-
-(* a node all of whose cells are empty: what rollback leaves of a node that the
-   rolled-back version created *)
-Definition n_blank (n : znode) : Prop := n_eqv n empty_node.
-
-(* `b` is `a` with equivalent nodes, followed by blank nodes *)
-Inductive ns_le : list (N * znode) -> list (N * znode) -> Prop :=
-| ns_le_nil extra : Forall (fun p => n_blank (snd p)) extra -> ns_le [] extra
-| ns_le_cons k n n' a b : n_eqv n n' -> ns_le a b -> ns_le ((k, n) :: a) ((k, n') :: b).
-
 Definition z_eqv (a b : zstate) : Prop := rs_eqv (z_apex a) (z_apex b) /\ ns_le (z_nodes a) (z_nodes b).
-
-Lemma ns_le_refl a : ns_le a a.
-Proof. induction a as [|[k n] tl IH]; constructor; [constructor|apply n_eqv_refl|exact IH]. Qed.
-
-Lemma blank_le b c : Forall (fun p => n_blank (snd p)) b -> ns_le b c -> Forall (fun p => n_blank (snd p)) c.
-Proof.
-  intros Hb H. induction H as [extra He|k n n' a b Hn _ IH]; [exact He|].
-  inversion Hb as [|? ? Hn0 Htl]; subst. cbn [snd] in Hn0. constructor; [|now apply IH].
-  cbn [snd]. unfold n_blank in *. eapply n_eqv_trans; [apply n_eqv_sym; exact Hn|exact Hn0].
-Qed.
-
-Lemma ns_le_trans a b c : ns_le a b -> ns_le b c -> ns_le a c.
-Proof.
-  intros H. revert c. induction H as [extra He|k n n' a b Hn _ IH]; intros c Hc.
-  - constructor. now apply (blank_le extra).
-  - inversion Hc as [|? ? n'' ? c' Hn' Hc']; subst. constructor; [eapply n_eqv_trans; eauto|now apply IH].
-Qed.
 
 Lemma z_eqv_refl a : z_eqv a a.
 Proof. split; [apply rs_eqv_refl|apply ns_le_refl]. Qed.
@@ -355,115 +530,99 @@ Lemma z_eqv_trans a b c : z_eqv a b -> z_eqv b c -> z_eqv a c.
 Proof. intros [H1 H2] [H3 H4]. split; [eapply rs_eqv_trans; eauto|eapply ns_le_trans; eauto]. Qed.
 
 Lemma z_rollback_eq s w :
-  z_rollback s w = mkz (z_cur s) (rs_rollback (z_apex s) w) (al_map (fun n => n_rollback n w) (z_nodes s)) (z_writer s).
+  z_rollback s w = mkz (z_cur s) (rs_rollback (z_apex s) w) (al_map (fun n => n_rollback n w) (z_nodes s)) (z_writer s) (z_handle s).
 Proof. reflexivity. Qed.
 
-Lemma n_q_empty c w : n_q c w empty_node.
-Proof. split; constructor. Qed.
-
-(* update_child + F: in place if the child exists, otherwise a new node that the
-   rollback of w turns into a blank one *)
-Lemma child_do_le c w ns name F :
-  c < w -> nl w F -> ns_q c w ns ->
-  ns_q c w (child_do ns name w F) /\
-  ns_le (al_map (fun n => n_rollback n w) ns) (al_map (fun n => n_rollback n w) (child_do ns name w F)).
-Proof.
-  intros Hc HF H. unfold child_do. cbv [update_child_creates_node].
-  induction H as [|[k n] tl Hn Htl IH]; cbn [al_upd].
-  - destruct (nl_comp w _ _ (nl_make_regular w) HF c empty_node Hc (n_q_empty c w)) as [H1 H2].
-    split; [constructor; [exact H1|constructor]|].
-    cbn [al_map map fst snd]. constructor. constructor; [|constructor]. exact H2.
-  - destruct (k =? name).
-    + destruct (HF c n Hc Hn) as [H1 H2]. split.
-      * constructor; assumption.
-      * cbn [al_map map fst snd]. constructor; [apply n_eqv_sym; exact H2|apply ns_le_refl].
-    + destruct IH as [H1 H2]. split.
-      * constructor; assumption.
-      * cbn [al_map map fst snd]. constructor; [apply n_eqv_refl|exact H2].
-Qed.
-
-Lemma ns_map_nl c w F ns :
-  c < w -> nl w F -> ns_q c w ns ->
-  ns_q c w (al_map F ns) /\
-  ns_le (al_map (fun n => n_rollback n w) ns) (al_map (fun n => n_rollback n w) (al_map F ns)).
-Proof.
-  intros Hc HF H. induction H as [|[k n] tl Hn _ [IH1 IH2]]; cbn [al_map map fst snd].
-  - split; [constructor|apply ns_le_refl].
-  - destruct (HF c n Hc Hn) as [H1 H2]. split; [constructor; auto|].
-    constructor; [apply n_eqv_sym; exact H2|exact IH2].
-Qed.
-
-Lemma set_nodes_q c w s ns : rs_q c w (z_apex s) -> ns_q c w ns -> z_q c w (set_nodes s ns).
-Proof. intros; split; assumption. Qed.
-
 (* THE step lemma: whatever data operation the writer of version w performs
-   (including update_child for a name that has no node yet), the rolled-back
-   zone stays the same up to empty cells and blank nodes *)
+   (update_child along any path, creating what is missing, included), the
+   rolled-back zone stays the same up to empty cells and blank nodes *)
 Lemma data_op_base c w s e :
   c < w -> z_q c w s ->
   z_q c w (data_op s w e) /\ z_eqv (z_rollback s w) (z_rollback (data_op s w e) w).
 Proof.
   intros Hc [Ha Hn].
-  assert (Hchild : forall name F, nl w F ->
-            z_q c w (set_nodes s (child_do (z_nodes s) name w F)) /\
-            z_eqv (z_rollback s w) (z_rollback (set_nodes s (child_do (z_nodes s) name w F)) w)).
-  { intros name F HF. destruct (child_do_le c w _ name F Hc HF Hn) as [H1 H2].
-    split; [now apply set_nodes_q|]. rewrite !z_rollback_eq. split; cbn [z_apex z_nodes set_nodes]; [apply rs_eqv_refl|exact H2]. }
   assert (Hsame : z_q c w s /\ z_eqv (z_rollback s w) (z_rollback s w)) by (split; [split; assumption|apply z_eqv_refl]).
+  assert (Hchild : forall name F, nl w F ->
+            z_q c w (at_node s w name F) /\ z_eqv (z_rollback s w) (z_rollback (at_node s w name F) w)).
+  { intros name F HF. unfold at_node. destruct name as [|l rest]; [exact Hsame|].
+    destruct (path_do_le w F HF (l :: rest) c _ Hc Hn) as [H1 H2]. unfold child_do.
+    split; [split; assumption|]. rewrite !z_rollback_eq. split; cbn [z_apex z_nodes set_nodes]; [apply rs_eqv_refl|exact H2]. }
   destruct e; cbn [data_op]; try exact Hsame.
   - (* EUpdate *)
-    destruct (N.eqb_spec name 0) as [->|Hne].
+    destruct name as [|l rest].
     + destruct (rs_update_wl c w t rr _ Hc Ha) as [H1 H2].
       split; [split; assumption|]. rewrite !z_rollback_eq. split; cbn [z_apex z_nodes set_apex]; [apply rs_eqv_sym; exact H2|apply ns_le_refl].
-    + apply Hchild. apply nl_update_rrset.
+    + apply (Hchild (l :: rest)). apply nl_update_rrset.
   - (* ERemove *)
-    destruct (N.eqb_spec name 0) as [->|Hne].
+    destruct name as [|l rest].
     + destruct (rs_remove_wl c w t _ Hc Ha) as [H1 H2].
       split; [split; assumption|]. rewrite !z_rollback_eq. split; cbn [z_apex z_nodes set_apex]; [apply rs_eqv_sym; exact H2|apply ns_le_refl].
-    + apply Hchild. apply nl_remove_rrset.
-  - (* ETouch *)
-    destruct (N.eqb_spec name 0) as [->|Hne]; [exact Hsame|]. apply Hchild. apply nl_id.
+    + apply (Hchild (l :: rest)). apply nl_remove_rrset.
+  - (* ETouch *) apply Hchild. apply nl_id.
   - (* ERemoveAll *)
     unfold z_remove_all. cbv [apex_remove_all_rrsets apex_remove_all_children].
-    destruct (ns_map_nl c w (fun n => n_remove_all n w) _ Hc (nl_remove_all w) Hn) as [H1 H2].
+    assert (Hkids : Forall (fun p => n_q c w (n_remove_all (snd p) w) /\
+                                     n_le (n_rollback (snd p) w) (n_rollback (n_remove_all (snd p) w) w)) (z_nodes s)).
+    { unfold ns_q, ns_all in Hn. rewrite Forall_forall in *. intros p Hin. exact (nl_remove_all w c (snd p) Hc (Hn p Hin)). }
     split.
-    + split; cbn [z_apex z_nodes]; [apply rs_all_q; auto using wl_remove|exact H1].
-    + rewrite !z_rollback_eq. split; cbn [z_apex z_nodes]; [|exact H2].
-      unfold rs_remove_all. rewrite (rs_all_base c); auto using wl_remove. apply rs_eqv_refl.
-  - (* ERemoveAllAt *)
-    destruct (N.eqb_spec name 0) as [->|Hne]; [exact Hsame|]. apply Hchild. apply nl_remove_all.
-  - (* ECname *)
-    destruct (N.eqb_spec name 0) as [->|Hne]; [exact Hsame|]. apply Hchild. apply nl_make_cname.
-  - (* ERegular *)
-    destruct (N.eqb_spec name 0) as [->|Hne]; [exact Hsame|]. apply Hchild. apply nl_make_regular.
+    + split; cbn [z_apex z_nodes]; [apply rs_all_q; auto using wl_remove|].
+      unfold ns_q, ns_all, al_map. rewrite Forall_map. eapply Forall_impl; [|exact Hkids]. intros p [H1 _]. exact H1.
+    + rewrite !z_rollback_eq. split; cbn [z_apex z_nodes].
+      * unfold rs_remove_all. rewrite (rs_all_base c); auto using wl_remove. apply rs_eqv_refl.
+      * rewrite al_map_map.
+        apply (ns_le_map (fun n => n_rollback n w) (fun n => n_rollback (n_remove_all n w) w)).
+        eapply Forall_impl; [|exact Hkids]. intros p [_ H2]. exact H2.
+  - (* ERemoveAllAt *) apply Hchild. apply nl_remove_all.
+  - (* ECname *) apply Hchild. apply nl_make_cname.
+  - (* ECut *) apply Hchild. apply nl_make_cut.
+  - (* ERegular *) apply Hchild. apply nl_make_regular.
 Qed.
 
-(* ---------------------------------------------------------------- observations respect z_eqv *)
+(* ---------------------------------------------------------------- observations respect n_le / z_eqv *)
 
-Lemma rs_get_eqv a b t v : rs_eqv a b -> rs_get a t v = rs_get b t v.
-Proof. intros [H _]. unfold rs_get. now rewrite H. Qed.
+Lemma own_data_eqv rs rs' sp v : rs_eqv rs rs' -> own_data rs sp v = own_data rs' sp v.
+Proof. intros H. unfold own_data. now rewrite (is_empty_eqv _ _ v H). Qed.
 
-Lemma is_empty_walk rs v :
-  rs_is_empty rs v = match walk_rrsets 0 rs v with [] => true | _ => false end.
+Lemma n_exists_eq rs sp ch v :
+  n_exists (mknode rs sp ch) v = own_data rs sp v || existsb (fun p => n_exists (snd p) v) ch.
+Proof. reflexivity. Qed.
+
+Lemma existsb_false {A} (f : A -> bool) l : (forall x, In x l -> f x = false) -> existsb f l = false.
+Proof. induction l as [|a tl IH]; intros H; [reflexivity|]. cbn [existsb]. rewrite (H a (or_introl eq_refl)). apply IH. intros x Hx. apply H. now right. Qed.
+Lemma flat_map_nil {A B} (f : A -> list B) l : (forall x, In x l -> f x = []) -> flat_map f l = [].
+Proof. induction l as [|a tl IH]; intros H; [reflexivity|]. cbn [flat_map]. rewrite (H a (or_introl eq_refl)). apply IH. intros x Hx. apply H. now right. Qed.
+
+Lemma blank_not_exists v : forall n, blank n -> n_exists n v = false.
 Proof.
-  induction rs as [|[k d] tl IH]; [reflexivity|].
-  rewrite walk_rrsets_cons. cbn [rs_is_empty forallb snd]. destruct (v_get d v); [reflexivity|exact IH].
+  induction n as [rs sp ch IH] using znode_ind'. intros H. inversion H as [? ? Hr Hch]; subst.
+  rewrite n_exists_eq. rewrite (own_data_eqv rs [] [] v Hr).
+  change (own_data [] [] v) with false. cbn [orb].
+  rewrite Forall_forall in *. apply existsb_false. intros p Hin. exact (IH p Hin (Hch p Hin)).
 Qed.
 
-Lemma is_empty_eqv a b v : rs_eqv a b -> rs_is_empty a v = rs_is_empty b v.
-Proof. intros [_ H]. now rewrite !is_empty_walk, H. Qed.
-
-Lemma n_exists_eqv a b v : n_eqv a b -> n_exists a v = n_exists b v.
+Lemma exists_le_mut v :
+  (forall a b, n_le a b -> n_exists a v = n_exists b v) /\
+  (forall a b, ns_le a b -> existsb (fun p => n_exists (snd p) v) a = existsb (fun p => n_exists (snd p) v) b).
 Proof.
-  intros [Hr Hs]. unfold n_exists, n_with_special. now rewrite (is_empty_eqv _ _ v Hr), Hs.
+  apply le_mut.
+  - intros rs sp ch rs' ch' Hr _ IH. rewrite !n_exists_eq. now rewrite (own_data_eqv _ _ sp v Hr), IH.
+  - intros extra He. cbn [existsb]. symmetry. induction He as [|p tl Hp _ IHl]; [reflexivity|].
+    cbn [existsb]. now rewrite (blank_not_exists v _ Hp), IHl.
+  - intros k n n' a b _ IHn _ IHs. cbn [existsb snd]. now rewrite IHn, IHs.
 Qed.
+Definition n_exists_le v := proj1 (exists_le_mut v).
 
-Lemma n_exists_blank n v : n_blank n -> n_exists n v = false.
-Proof. intros H. now rewrite (n_exists_eqv _ _ v H). Qed.
+Lemma n_le_special a b : n_le a b -> n_special a = n_special b.
+Proof. intros H. inversion H; reflexivity. Qed.
+Lemma n_le_rrsets a b : n_le a b -> rs_eqv (n_rrsets a) (n_rrsets b).
+Proof. intros H. inversion H; assumption. Qed.
+Lemma n_le_children a b : n_le a b -> ns_le (n_children a) (n_children b).
+Proof. intros H. inversion H; assumption. Qed.
 
-Lemma node_here_eqv a b v t soa : n_eqv a b -> node_here a v t soa = node_here b v t soa.
+Lemma node_here_le a b v t soa : n_le a b -> node_here a v t soa = node_here b v t soa.
 Proof.
-  intros [Hr Hs]. unfold node_here, n_with_special. rewrite Hs. now rewrite (rs_get_eqv _ _ t v Hr).
+  intros H. unfold node_here, n_with_special. rewrite (n_le_special _ _ H).
+  now rewrite (rrsets_answer_eqv _ _ v t soa (n_le_rrsets _ _ H)).
 Qed.
 
 Lemma al_get_in {A} k (l : list (N * A)) y : al_get k l = Some y -> exists k', In (k', y) l.
@@ -476,9 +635,9 @@ Qed.
 Lemma al_get_le k a b :
   ns_le a b ->
   match al_get k a, al_get k b with
-  | Some x, Some y => n_eqv x y
+  | Some x, Some y => n_le x y
   | None, None => True
-  | None, Some y => n_blank y
+  | None, Some y => blank y
   | Some _, None => False
   end.
 Proof.
@@ -491,56 +650,95 @@ Qed.
 Lemma child_at_le k v a b :
   ns_le a b ->
   match child_at a k v, child_at b k v with
-  | Some x, Some y => n_eqv x y
+  | Some x, Some y => n_le x y
   | None, None => True
   | _, _ => False
   end.
 Proof.
   intros H. pose proof (al_get_le k a b H) as Hg. unfold child_at. cbv [query_follows_only_existing_children].
   destruct (al_get k a) as [x|], (al_get k b) as [y|]; try contradiction.
-  - rewrite (n_exists_eqv _ _ v Hg). destruct (n_exists y v); [exact Hg|exact I].
-  - now rewrite (n_exists_blank y v Hg).
+  - rewrite (n_exists_le v _ _ Hg). destruct (n_exists y v); [exact Hg|exact I].
+  - now rewrite (blank_not_exists v y Hg).
   - exact I.
+Qed.
+
+Lemma q_children_le v t soa : forall p a b, ns_le a b -> q_children a p v t soa = q_children b p v t soa.
+Proof.
+  induction p as [|l rest IH]; intros a b H; [reflexivity|]. cbn [q_children].
+  pose proof (child_at_le l v a b H) as H1. pose proof (child_at_le 1 v a b H) as H2.
+  destruct (child_at a l v) as [x|], (child_at b l v) as [y|]; try contradiction.
+  - destruct rest as [|l' rest']; [now apply node_here_le|].
+    unfold n_with_special. rewrite (n_le_special _ _ H1).
+    destruct (sp_get (n_special y) v) as [[ns ds glue|id|]|]; try reflexivity;
+      apply IH; now apply n_le_children.
+  - destruct (child_at a 1 v), (child_at b 1 v); try contradiction; [now apply node_here_le|reflexivity].
 Qed.
 
 Lemma query_eqv a b v name t : z_eqv a b -> query a v name t = query b v name t.
 Proof.
   intros [Ha Hn]. unfold query. rewrite (rs_get_eqv _ _ 6 v Ha).
-  destruct (name =? 0); [now rewrite (rs_get_eqv _ _ t v Ha)|].
-  pose proof (child_at_le name v _ _ Hn) as H1. pose proof (child_at_le 1 v _ _ Hn) as H2.
-  destruct (child_at (z_nodes a) name v), (child_at (z_nodes b) name v); try contradiction.
-  - now apply node_here_eqv.
-  - destruct (child_at (z_nodes a) 1 v), (child_at (z_nodes b) 1 v); try contradiction; [now apply node_here_eqv|reflexivity].
+  destruct name; [now apply rrsets_answer_eqv|now apply q_children_le].
 Qed.
 
-Lemma walk_node_eqv k n n' v : n_eqv n n' -> walk_node (k, n) v = walk_node (k, n') v.
-Proof. intros [[_ Hw] Hs]. unfold walk_node, n_with_special. cbn [fst snd]. now rewrite Hw, Hs. Qed.
+Lemma walk_node_eq path rs sp ch v :
+  walk_node path (mknode rs sp ch) v =
+  walk_rrsets path rs v ++
+  match sp_get sp v with
+  | Some (SCut ns ds glue) => [(path, 2, ns)] ++ opt_item path 43 ds ++ opt_item path 1 glue
+  | Some (SCname id) => [(path, 5, id)] ++ flat_map (fun p => walk_node (path ++ [fst p]) (snd p) v) ch
+  | _ => flat_map (fun p => walk_node (path ++ [fst p]) (snd p) v) ch
+  end.
+Proof. reflexivity. Qed.
+
+Lemma blank_walk v : forall n, blank n -> forall path, walk_node path n v = [].
+Proof.
+  induction n as [rs sp ch IH] using znode_ind'. intros H path. inversion H as [? ? Hr Hch]; subst.
+  rewrite walk_node_eq. destruct Hr as [_ Hw]. rewrite Hw. change (sp_get [] v) with (@None special).
+  cbn [walk_rrsets flat_map app].
+  rewrite Forall_forall in *. apply flat_map_nil. intros p Hin. exact (IH p Hin (Hch p Hin) _).
+Qed.
+
+Lemma walk_le_mut v :
+  (forall a b, n_le a b -> forall path, walk_node path a v = walk_node path b v) /\
+  (forall a b, ns_le a b -> forall path,
+     flat_map (fun p => walk_node (path ++ [fst p]) (snd p) v) a =
+     flat_map (fun p => walk_node (path ++ [fst p]) (snd p) v) b).
+Proof.
+  apply le_mut.
+  - intros rs sp ch rs' ch' [_ Hw] _ IH path. rewrite !walk_node_eq, Hw, IH. reflexivity.
+  - intros extra He path. cbn [flat_map]. symmetry. induction He as [|p tl Hp _ IHl]; [reflexivity|].
+    cbn [flat_map]. now rewrite (blank_walk v _ Hp), IHl.
+  - intros k n n' a b _ IHn _ IHs path. cbn [flat_map fst snd]. now rewrite IHn, IHs.
+Qed.
 
 Lemma walk_eqv a b v : z_eqv a b -> walk a v = walk b v.
 Proof.
   intros [[_ Ha] Hn]. unfold walk. rewrite Ha. f_equal.
-  induction Hn as [extra He|k n n' x y Hn _ IH].
-  - cbn [flat_map]. induction He as [|[k n] tl Hb _ IH]; [reflexivity|].
-    cbn [flat_map]. rewrite <- IH, app_nil_r. cbn [snd] in Hb.
-    now rewrite (walk_node_eqv k n empty_node v Hb).
-  - cbn [flat_map]. now rewrite IH, (walk_node_eqv k n n' v Hn).
+  exact (proj2 (walk_le_mut v) _ _ Hn []).
 Qed.
 
-(* a reader below w reads through the base *)
-Lemma is_empty_base w rs r : ver_le w r = false -> rs_is_empty (rs_rollback rs w) r = rs_is_empty rs r.
-Proof. intros Hr. now rewrite !is_empty_walk, (walk_rrsets_base w 0 rs r Hr). Qed.
+(* ---------------------------------------------------------------- a reader below w reads through the base *)
 
-Lemma n_exists_base w n r : ver_le w r = false -> n_exists (n_rollback n w) r = n_exists n r.
+Lemma sp_get_base w sp r : ver_le w r = false -> sp_get (v_rollback sp w) r = sp_get sp r.
+Proof. intros Hr. unfold sp_get. now rewrite (get_base w sp r Hr). Qed.
+
+Lemma own_data_base w rs sp r :
+  ver_le w r = false -> own_data (rs_rollback rs w) (v_rollback sp w) r = own_data rs sp r.
+Proof. intros Hr. unfold own_data. now rewrite (is_empty_base w _ r Hr), (sp_get_base w _ r Hr). Qed.
+
+Lemma n_exists_base w r : ver_le w r = false -> forall n, n_exists (n_rollback n w) r = n_exists n r.
 Proof.
-  intros Hr. unfold n_exists, n_with_special. rewrite n_rollback_eq. cbn [n_rrsets n_special].
-  now rewrite (is_empty_base w _ r Hr), (get_base w _ r Hr).
+  intros Hr. induction n as [rs sp ch IH] using znode_ind'.
+  rewrite n_rollback_eq, !n_exists_eq, (own_data_base w _ _ r Hr). f_equal.
+  unfold al_map. rewrite Forall_forall in IH. induction ch as [|p tl IHl]; [reflexivity|].
+  cbn [map existsb snd]. rewrite (IH p (or_introl eq_refl)). f_equal. apply IHl. intros q Hq. apply IH. now right.
 Qed.
 
 Lemma node_here_base w n r t soa :
   ver_le w r = false -> node_here (n_rollback n w) r t soa = node_here n r t soa.
 Proof.
-  intros Hr. unfold node_here, n_with_special. rewrite n_rollback_eq. cbn [n_rrsets n_special].
-  now rewrite (get_base w _ r Hr), (rs_get_base w _ t r Hr).
+  intros Hr. destruct n as [rs sp ch]. unfold node_here, n_with_special. rewrite n_rollback_eq. cbn [n_rrsets n_special].
+  now rewrite (sp_get_base w _ r Hr), (rrsets_answer_base w _ r t soa Hr).
 Qed.
 
 Lemma child_at_base w ns k r :
@@ -548,25 +746,44 @@ Lemma child_at_base w ns k r :
   child_at (al_map (fun n => n_rollback n w) ns) k r = option_map (fun n => n_rollback n w) (child_at ns k r).
 Proof.
   intros Hr. unfold child_at. rewrite al_get_map. destruct (al_get k ns) as [n|]; cbn [option_map]; [|reflexivity].
-  rewrite (n_exists_base w n r Hr). cbv [query_follows_only_existing_children]. destruct (n_exists n r); reflexivity.
+  rewrite (n_exists_base w r Hr n). cbv [query_follows_only_existing_children]. destruct (n_exists n r); reflexivity.
+Qed.
+
+Lemma q_children_base w r t soa :
+  ver_le w r = false -> forall p ns,
+  q_children (al_map (fun n => n_rollback n w) ns) p r t soa = q_children ns p r t soa.
+Proof.
+  intros Hr. induction p as [|l rest IH]; intros ns; [reflexivity|]. cbn [q_children].
+  rewrite !(child_at_base w _ _ r Hr).
+  destruct (child_at ns l r) as [n|]; cbn [option_map].
+  - destruct rest as [|l' rest']; [now apply node_here_base|].
+    destruct n as [rs sp ch]. unfold n_with_special. rewrite n_rollback_eq. cbn [n_special n_children].
+    rewrite (sp_get_base w _ r Hr). destruct (sp_get sp r) as [[ns' ds glue|id|]|]; try reflexivity; apply IH.
+  - destruct (child_at ns 1 r); cbn [option_map]; [now apply node_here_base|reflexivity].
 Qed.
 
 Lemma query_base w s r name t :
   ver_le w r = false -> query (z_rollback s w) r name t = query s r name t.
 Proof.
   intros Hr. unfold query. rewrite z_rollback_eq. cbn [z_apex z_nodes].
-  rewrite !(rs_get_base w _ _ r Hr). destruct (name =? 0); [reflexivity|].
-  rewrite !(child_at_base w _ _ r Hr).
-  destruct (child_at (z_nodes s) name r); cbn [option_map]; [now apply node_here_base|].
-  destruct (child_at (z_nodes s) 1 r); cbn [option_map]; [now apply node_here_base|reflexivity].
+  rewrite (rs_get_base w _ 6 r Hr). destruct name; [now apply rrsets_answer_base|now apply q_children_base].
+Qed.
+
+Lemma walk_node_base w r : ver_le w r = false -> forall n path, walk_node path (n_rollback n w) r = walk_node path n r.
+Proof.
+  intros Hr. induction n as [rs sp ch IH] using znode_ind'. intros path.
+  rewrite n_rollback_eq, !walk_node_eq, (walk_rrsets_base w path rs r Hr), (sp_get_base w sp r Hr).
+  assert (E : flat_map (fun p => walk_node (path ++ [fst p]) (snd p) r) (al_map (fun n => n_rollback n w) ch) =
+              flat_map (fun p => walk_node (path ++ [fst p]) (snd p) r) ch).
+  { unfold al_map. rewrite Forall_forall in IH. induction ch as [|p tl IHl]; [reflexivity|].
+    cbn [map flat_map fst snd]. rewrite (IH p (or_introl eq_refl)). f_equal. apply IHl. intros q Hq. apply IH. now right. }
+  now rewrite E.
 Qed.
 
 Lemma walk_base w s r : ver_le w r = false -> walk (z_rollback s w) r = walk s r.
 Proof.
   intros Hr. unfold walk. rewrite z_rollback_eq. cbn [z_apex z_nodes].
-  rewrite (walk_rrsets_base w 0 _ r Hr). f_equal.
+  rewrite (walk_rrsets_base w [] _ r Hr). f_equal.
   unfold al_map. induction (z_nodes s) as [|[k n] tl IH]; [reflexivity|].
-  cbn [map flat_map fst snd]. rewrite IH. f_equal.
-  unfold walk_node, n_with_special. cbn [fst snd]. rewrite n_rollback_eq. cbn [n_rrsets n_special].
-  now rewrite (walk_rrsets_base w k _ r Hr), (get_base w _ r Hr).
+  cbn [map flat_map fst snd]. now rewrite IH, (walk_node_base w r Hr n).
 Qed.
